@@ -397,10 +397,69 @@ def fault_cases(draw):
     return {"W": W, "X": X, "fault": fault}
 
 
+def _placeholder_doc(ref, loop_stage, loop_names):
+    comps = [{"stage": 0, "name": "seed", "command": {"executable": "echo", "arguments": "hi"}}]
+    for n in loop_names:
+        comps.append({"stage": loop_stage, "name": n, "command": {"executable": "echo", "arguments": "stage0.seed:ref"},
+                      "references": ["stage0.seed:ref"]})
+    if loop_stage == 2:      # stage indices are consecutive
+        comps.append({"stage": 1, "name": "filler", "command": {"executable": "echo", "arguments": "hi"}})
+    comps.append({"stage": loop_stage + 1, "name": "consume", "command": {"executable": "echo", "arguments": ref},
+                  "references": [ref]})
+    return {"components": comps}
+
+
+def check_placeholder(case, ctx: Ctx):
+    """"every component reference points to an existing component or loop placeholder": a reference to the base name of
+    unrolled loop instances (<iteration>#<name>) is fine in the stage that holds them and dangling in any other."""
+    doc = _placeholder_doc(case["ref"], case["loop_stage"], case["names"])
+    out = load(case["route"], doc, None, ctx)
+    if out[0] == "hang":
+        raise Violation("load-hangs@placeholder", "%s %s" % (case, dump(doc)[:400]))
+    if case["dangling"]:
+        if out[0] == "accepted":
+            raise Violation("dangling-reference-accepted@loop-instance-in-other-stage",
+                            "[%s] reference %s accepted although stage %d holds %s and the referenced stage nothing of "
+                            "that name" % (case["route"], case["ref"], case["loop_stage"], case["names"]))
+        if not proper_rejection(case["route"], out[1], None, doc):
+            raise Violation(wrong_exception_sig(case["route"], out[1], out[2], "dangling"),
+                            "[%s] %s: %s" % (case["route"], type(out[1]).__name__, str(out[1])[:300]))
+    elif out[0] != "accepted":
+        raise Violation("valid-workflow-rejected@placeholder-reference",
+                        "[%s] reference %s to the loop placeholder of %s in stage %d: %s: %s" % (
+                            case["route"], case["ref"], case["names"], case["loop_stage"], type(out[1]).__name__,
+                            str(out[1])[:300]))
+    ctx.rec.label("placeholder:%s:%s" % ("dangling" if case["dangling"] else "valid", case["route"]))
+
+
+def placeholder_anchors():
+    out = []
+    for route in ("memory", "memory-primitive", "conf"):
+        for names in (["0#work"], ["0#work", "1#work"], ["12#work", "3#work"]):
+            for loop_stage in (1, 2):
+                out.append({"route": route, "names": names, "loop_stage": loop_stage, "dangling": False,
+                            "ref": "stage%d.work:ref" % loop_stage})
+                for other in (0, loop_stage + 1, loop_stage - 1):
+                    out.append({"route": route, "names": names, "loop_stage": loop_stage, "dangling": True,
+                                "ref": "stage%d.work:ref" % other})
+    return out
+
+
 def shard(ctx: Ctx):
+    for idx, case in enumerate(placeholder_anchors()):
+        if idx % ctx.nshards != ctx.shard or ctx.stop:
+            continue
+        ctx.rec.evaluations += 1
+        try:
+            check_placeholder(case, ctx)
+        except Violation as v:
+            v.case, v.sub = case, "placeholder"
+            ctx.rec.violations.append(v.to_dict())
+            ctx.stop = True
+            return
     explore(ctx, "valid", valid_cases(), check_valid, ctx.n(640, 24000), batch=40)
     explore(ctx, "fault", fault_cases(), check_fault, ctx.n(3600, 160000), batch=75)
 
 
 def replay(sub, case, ctx: Ctx):
-    {"valid": check_valid, "fault": check_fault}[sub or "fault"](case, ctx)
+    {"valid": check_valid, "fault": check_fault, "placeholder": check_placeholder}[sub or "fault"](case, ctx)
